@@ -21,11 +21,11 @@ TEXT = {
                  "character level: lex_spell (every list of well-formed tokens, each written followed by one space, lexes back to itself under the first-match rule order), "
                  "tokWF_exact (the well-formedness predicate is exactly the set of tokens that re-lex), parseBlockText_spell / parseAuthorizerText_spell (text entry points = lexer then "
                  "token parser). Props/C14Text.lean composes them: parseBlockText_roundtrip / parseAuthorizerText_roundtrip / parseSingleText_roundtrip (every well-formed statement list written as TEXT "
-                 "and read by the model's text entry points gives back exactly the statements; itemLexOK is exactly 'every rendered token re-lexes'). Props/TablesGrammar.lean: the parser's lexer rules (names, regular expressions, order) and every grammar production (struct tags read by "
+                 "and read by the model's text entry points gives back exactly the statements; itemLexOK is exactly 'every rendered token re-lexes'). Props/C14Layout.lean: lex_spellWith (any layout — blanks of any kind between tokens, and none wherever needSep says the junction is harmless, e.g. `right(\"a\", $x)`, `$u.length()`, `!$x` — lexes back to the tokens), with witnesses that the junctions it refuses really lex differently. Props/TablesGrammar.lean: the parser's lexer rules (names, regular expressions, order) and every grammar production (struct tags read by "
                  "reflection) regenerated on every run and compared with reviewed copies; the literal lists of the Lean lexer proved to spell the source's regular expressions. Tied by texts rendered from "
                  "random abstract syntax with random layout compared with the generator's AST and the Lean grammar model, error and deviation streams, token corruptions, raw "
                  "strings, and first use of every parsed element.",
-        "note": COMMON_NOTE + "Character level is proved for one-space layout (lex_spell); tighter layouts are covered by the correspondence (random layout). participle modelled, not verified. Three deviations from GRAMMAR.md are recorded as known findings.",
+        "note": COMMON_NOTE + "Character level is proved for every admissible layout (lex_spellWith); the round-trip composition (C14Text) uses the one-space layout. participle modelled, not verified. Three deviations from GRAMMAR.md are recorded as known findings.",
         "technique": "Lean 4 proof (continuation-style induction over an 8-level recursive-descent parser) + differential correspondence + grammar-based generation",
     },
     "C15": {
